@@ -26,6 +26,11 @@ RULE = ('T2: int(bytes), Headers.element("Range") (Range.parse + prevent_denial_
 	'given as text, received on the wire (name case, OWS, obs-fold after commas, two fields, fragmented) or on a Request that served another response; Unicode normalisation forms and look-alikes in the body text, the Content-Type and the Range text; '
 	'representation / slice / position-spelling lengths around 11..65537, digit-count changes of positions, 2..256 ranges; every codec media type, method and status of the registries read from the tree, field names in five letter cases; degenerate range sets, validators, media types and bodies; '
 	'a 206 is serialised twice, prepared twice and read back (own reader + ClientStateMachine in fragments) and must not move; a 206 must carry the right octets even where none is demanded; get_range_content must yield the slices wherever the file position was. '
+	'Wave-4 classes: (9) range sets that mix acceptable members with one invalid member - a reversed spec (last < first, RFC 7233 2.1: invalid; 9-3, 5-4, n-1 - 0, padded / zero-filled / 20-digit spellings) or a member outside the grammar - at every index of sets of 1-3 disjoint similar ranges, with suffix / open-ended members, every separator spelling and unit case: never 206 (oracle), and through the model (CParse / CPrep); '
+	'reserved names (boundary, charset, q, none, multipart, ...) as range units, multipart delimiters / part headers inside the representation, metacharacters in Content-Type parameters and entity tags; '
+	'(7) read-only observers (repr/str/bytes/hash/len/bool/iteration/copy/deepcopy, in / get / getbytes / element / elements / values / items / dict() / sorted() of both header sets, all six comparisons of the status, the Range element, the body and the protocols in both directions, '
+	'attribute reads, len / tell / iteration / serialisation of the body) applied to the request, the response, their headers, the parsed Range element and the body BEFORE prepare() and to the prepared response before it is read: same answer as unobserved new objects; '
+	'(8) the remaining members of the families: the Range field removed / cleared / popped / setdefault on a present field / deleted for good, request and response protocol versions 0.9 .. 3.0 (>= 1.1 must serve), the Content-Range of the 206 parsed back by ContentRange.parse and composed again, the multipart/byteranges body decoded by the codec (Body.decode) into the same slices. '
 	'non-trivial = distinct (kind, input) reaching 206, 416 or a refused precondition')
 EXHAUSTIVE = {'quick': False, 'thorough': False}
 TRUSTED = ['harness/tables/elemlex.py + harness/tables/range.py (T1: bytes.strip set, int() octet classes, bytes.isdigit class, the two variant probes and the octet class / pinned pattern of Range.RE_UNIT, pinned split patterns, TSPECIALS, part-header template, BytesIO clamping probes)',
@@ -383,6 +388,10 @@ def _px(v, d, ct='text/plain', **kw):
 		c['flags'] = {'lastmod': True}
 	elif names != ['etag']:
 		plain = False
+	if c.get('rp') is not None and tuple(c['rp']) < (1, 1):
+		c['flags'] = dict(c['flags'], resp10=True)
+	if c.get('qp') is not None and tuple(c['qp']) < (1, 1):
+		c['flags'] = dict(c['flags'], req10=True)
 	c['m'] = 1 if plain else 0
 	return c
 
@@ -631,6 +640,243 @@ def _gen_slices(rng, big):
 	return out
 
 
+# ---------------------------------------------------------------------------------------------------------------------------------
+# Wave-4 classes: (7) read-only observers, (8) every member of an operator family, (9) sets that mix valid and invalid members, reserved
+# names as data, metacharacters of the neighbouring component.
+BAD_MEMBERS = [b'', b' ', b'-', b'x', b'3', b'3-5-7', b'--3', b'+1-5', b'1_0-12', b'3-x', b'x-5', b'"3-5"', b'3-5;q=1', b'3=5', b'bytes=3-5', b'3 5', b'0x3-5', b'3.0-5', b'\xb2-5', b'*', b'3-*', b'3-5 6', b'3--5', b'-+3', b'3-5\x00',
+	b'- -', b'3-5/40', b'3:5', b'3..5', b'(3-5)']
+RESERVED_UNITS = [b'boundary', b'charset', b'q', b'none', b'multipart', b'byteranges', b'filename', b'realm', b'uri', b'*', b'bytes-unit', b'Content-Range', b'If-Range', b'identity', b'chunked']
+MP_DATA = (b'--frontier\r\nContent-Range: bytes 0-1/2\r\nContent-Type: text/plain\r\n\r\nxx\r\n--frontier--\r\n' b'\r\n--\r\n----\r\nContent-Type: multipart/byteranges; boundary=frontier\r\n\r\n--===============0123456789012345678==\r\n'
+	b'Content-Range: bytes 4-7/9\r\n\r\n--===============0123456789012345678==--\r\n')
+META_CTYPES = ['text/plain; boundary=frontier', 'multipart/byteranges; boundary="a,b"', 'text/plain; charset="a,b;c=d"', 'text/plain; q=0.5', 'text/plain; bytes="0-1"', 'application/x-www-form-urlencoded; charset=utf-8',
+	'text/plain; filename="a;b"', 'multipart/mixed; boundary=frontier', 'text/plain; title="--frontier"', 'message/byterange']
+META_ETAGS = ['"a,b"', '"a;b=c"', '"bytes=0-1"', '"=?utf-8?b?eA==?="', '"%41"', '"a/b?c#d"', 'W/"a,b"', '"-"', '"0-1"', '"*"']
+REQ_OBS = ['req.repr', 'req.copy', 'req.attrs', 'hdr.in', 'hdr.get', 'hdr.element', 'hdr.iter', 'hdr.views', 'hdr.copy', 'hdr.ser', 'hdr.cmp', 'rng.ser', 'rng.cmp', 'rng.copy', 'rng.attrs']
+RESP_OBS = ['resp.repr', 'resp.copy', 'resp.attrs', 'status.cmp', 'rhdr.in', 'rhdr.get', 'rhdr.element', 'rhdr.iter', 'rhdr.views', 'rhdr.copy', 'rhdr.ser', 'rhdr.cmp', 'body.len', 'body.ser', 'body.iter', 'body.attrs', 'body.copy', 'body.cmp', 'body.tell']
+PROTOCOLS = [[1, 1], [1, 2], [1, 9], [1, 10], [2, 0], [3, 0], [1, 0], [0, 9], [0, 0]]
+
+
+def _reversed_members(rng, n):
+	"""byte-range-specs whose last position is smaller than the first (RFC 7233 2.1: invalid), in several spellings"""
+	a = rng.randint(1, n - 1)
+	b = rng.randint(0, a - 1)
+	return [b'9-3', b'5-4', b'%d-0' % (n - 1), b'10-9', b'1-0', b'09-3', b' 9 - 3 ', b'9-03', b'\t9-3', b'%d-%d' % (n + 5, n - 2), b'%d-%d' % (n + 5, n + 4), b'100-99', b'4294967296-1', b'18446744073709551616-18446744073709551615',
+		b'%d-%d' % (a, b), b'%d-%d' % (a, b), b'0%d - 00%d' % (a, b)]
+
+
+def _mixed(rng, good, bad, at, sep=None, unit=b'bytes'):
+	members = [_spec(rng, *x) if sep is None else b'%d-%d' % x for x in good]
+	members.insert(at, bad)
+	return unit + b'=' + (sep if sep is not None else _sep(rng)).join(members)
+
+
+def _gen_wave4(rng, big):
+	out = []
+	both = lambda v, n, ct='text/plain': [{'k': 'parse', 'v': v.hex()}, {'k': 'prep', 'v': v.hex(), 'd': _rdata(rng, n).hex(), 'ct': ct, 'flags': {}}]
+	# (9) one invalid member in a set whose other members could be served, at every index
+	for k in (1, 2, 3):
+		n = rng.randint(40, 80)
+		good = None
+		while not good:
+			good = _disjoint(rng, n, k)
+		rng.shuffle(good)
+		for bad in _reversed_members(rng, n) + (BAD_MEMBERS if k < 3 else []):
+			for at in range(k + 1):
+				out.extend(both(_mixed(rng, good, bad, at, rng.choice([b',', b', '])), n))
+	for _ in range(900 if big else 260):
+		n = rng.randint(12, 120)
+		k = rng.randint(1, 3)
+		good = _disjoint(rng, n, k) or [(0, 1)]
+		rng.shuffle(good)
+		members = [_spec(rng, *x) for x in good]
+		for _ in range(rng.choice([1, 1, 1, 2])):
+			members.insert(rng.randint(0, len(members)), rng.choice(_reversed_members(rng, n)))
+		r = rng.random()
+		if r < 0.15:
+			members.insert(rng.randint(0, len(members)), rng.choice([b'-3', b'-%d' % n, b'%d-' % (n - 3), b'0-']))
+		elif r < 0.25:
+			members.insert(rng.randint(0, len(members)), rng.choice(BAD_MEMBERS))
+		v = rng.choice([b'bytes', b'bytes', b'bytes', b'bytes', b'BYTES', b'Bytes']) + b'=' + _sep(rng).join(members)
+		c = {'k': 'prep', 'v': v.hex(), 'd': _rdata(rng, n).hex(), 'ct': rng.choice(CTYPES), 'flags': {}}
+		if rng.random() < 0.25:
+			c['flags'] = {rng.choice(['lastmod', 'arset', 'noetag']): True, 'lastmod': True}
+		out.append(c)
+	# ... members with first = last between acceptable ones (no expectation of the statement; model against implementation)
+	for _ in range(120 if big else 40):
+		n = rng.randint(12, 60)
+		good = _disjoint(rng, n, rng.randint(1, 2)) or [(0, 1)]
+		a = rng.randint(0, n - 1)
+		out.extend(both(_mixed(rng, good, b'%d-%d' % (a, a), rng.randint(0, len(good))), n)[1:])
+	# (9) reserved names as range units; delimiters and part headers inside the representation; metacharacters in media type parameters and entity tags
+	for u in RESERVED_UNITS:
+		for rset in (b'1-2', b'0-2, 10-12', b'9-3,0-1'):
+			out.extend(both(u + b'=' + rset, 40)[1:])
+	d = MP_DATA
+	for _ in range(30 if big else 12):
+		v, want = _range_value(rng, len(d), True)
+		out.append(_px(v, d, rng.choice(['text/plain', 'multipart/byteranges; boundary=frontier', 'multipart/mixed; boundary=frontier']), want=want, rt=1, frag=rng.choice([0, 1, 7, 64]), fam=1))
+	d = _rdata(rng, 40)
+	for ct in META_CTYPES:
+		for multi in (False, True):
+			v, want = _range_value(rng, len(d), multi)
+			out.append(_px(v, d, ct, want=want))
+	for et in META_ETAGS:
+		for multi in (False, True):
+			v, want = _range_value(rng, len(d), multi)
+			out.append(_px(v, d, 'text/plain', vk=[['ETag', et]], want=want))
+	# (8) the other members of the families
+	for _ in range(30 if big else 10):
+		n = rng.randint(12, 60)
+		d = _rdata(rng, n)
+		for multi in (False, True):
+			v, want = _range_value(rng, n, multi)
+			other = rng.choice([b'bytes=0-1', b'bytes=1-3,5-7', b'bytes=9-3,0-1', b'bits=1-2', b'bytes=x', v])
+			for rk in ('del', 'clear', 'pop2', 'setdefault2'):
+				out.append(_px(v, d, rng.choice(CTYPES), rk=rk, other=other.hex(), want=want))
+			out.append(_px(None, d, rng.choice(CTYPES), rk='delonly', other=v.hex()))
+	for rp in PROTOCOLS:
+		for qp in (PROTOCOLS if big else [None, rng.choice(PROTOCOLS)]):
+			for multi in (False, True):
+				v, want = _range_value(rng, 40, multi)
+				out.append(_px(v, _rdata(rng, 40), 'text/plain', rp=rp, qp=qp, want=want))
+				if qp is not None and not big:
+					out.append(_px(v, _rdata(rng, 40), 'text/plain', rp=qp, qp=rp, want=want))
+	for _ in range(400 if big else 130):
+		n = _size(rng) if rng.random() < 0.2 else rng.randint(6, 80)
+		v, want = _range_value(rng, n, rng.random() < 0.6)
+		out.append(_px(v, _rdata(rng, n), rng.choice(CTYPES), want=want, fam=1, bk=rng.choice(['bytes', 'bytes', 'bio', 'biow', 'file'])))
+	# (7) read-only observers before prepare() (request, response, both header sets, the parsed element, the body) and on the prepared response
+	for i in range(2400 if big else 800):
+		n = rng.randint(8, 90)
+		d = _rdata(rng, n)
+		r = rng.random()
+		want = None
+		if r < 0.6:
+			v, want = _range_value(rng, n, rng.random() < 0.5)
+		elif r < 0.72:
+			good = _disjoint(rng, n, rng.randint(1, 2)) or [(0, 1)]
+			v = _mixed(rng, good, rng.choice(_reversed_members(rng, n) + BAD_MEMBERS), rng.randint(0, len(good)))
+		elif r < 0.8:
+			v = rng.choice(UNIT_FOREIGN + UNIT_BAD) + b'=2-5'
+		elif r < 0.85:
+			v = None
+		elif r < 0.93:
+			v = rng.choice(HAND)
+		else:
+			v = rng.choice(NEAR)
+			d = _rdata(rng, 120)
+		obs = REQ_OBS + RESP_OBS if i % 17 == 0 else rng.sample(REQ_OBS + RESP_OBS, rng.randint(1, 4))
+		kw = {'obs': obs}
+		if i % 3 == 0:
+			kw['obs2'] = RESP_OBS if i % 51 == 0 else rng.sample(RESP_OBS, rng.randint(1, 3))
+		if i % 5 == 0 and want is not None:   # (valid values only: Headers.parse trims the field value, text must be decodable)
+			kw['rk'] = rng.choice(['str', 'parse', 'update', 'ctor', 'hset'])
+		if want is not None:
+			kw['want'] = want
+		if v is None:
+			kw['rk'] = 'set'
+		out.append(_px(v, d, rng.choice(CTYPES), bk=rng.choice(['bytes', 'bytes', 'bytearray', 'bio', 'biow', 'file', 'bodyw']), **kw))
+	return out
+
+
+def _try(f, *a):
+	try:
+		return f(*a)
+	except Exception as exc:   # an observer the object does not support is still an observer: what counts is what the objects do afterwards
+		return type(exc).__name__
+
+
+def _cmp_all(x, others):
+	import operator
+	for op in (operator.eq, operator.ne, operator.lt, operator.le, operator.gt, operator.ge):
+		for y in others:
+			_try(op, x, y)
+			_try(op, y, x)
+
+
+def _obs_headers(h, what, names):
+	import copy
+	if what == 'in':
+		for n in names + ['X-None', b'range', 'RANGE', '', 'Content-Range']:
+			_try(lambda: n in h), _try(lambda: n not in h), _try(h.__contains__, n)
+	elif what == 'get':
+		for n in names + ['X-None', 'range', b'Range']:
+			_try(h.get, n), _try(h.get, n, None), _try(h.getbytes, n), _try(lambda: h[n]), _try(h.values, n)
+	elif what == 'element':
+		for n in names + ['X-None']:
+			_try(h.element, n), _try(h.elements, n), _try(h.get_element, n), _try(h.element, n, None)
+	elif what == 'iter':
+		_try(list, h), _try(lambda: [k for k in h]), _try(lambda: list(iter(h))), _try(lambda: list(reversed(list(h)))), _try(lambda: [(k, v) for k, v in h.items()])
+	elif what == 'views':
+		_try(dict, h), _try(sorted, h), _try(len, h), _try(bool, h), _try(lambda: list(h.items())), _try(lambda: list(h.values())), _try(lambda: list(h.keys())), _try(hash, h), _try(lambda: sorted(h.items())), _try(lambda: dict(h).get('Range'))
+	elif what == 'copy':
+		_try(copy.copy, h), _try(copy.deepcopy, h), _try(lambda: type(h)(h)), _try(lambda: dict(h.items())), _try(h.copy)
+	elif what == 'ser':
+		_try(bytes, h), _try(str, h), _try(repr, h), _try(h.compose), _try(format, h, '')
+	elif what == 'cmp':
+		_cmp_all(h, (h, {}, _try(dict, h), _try(copy.copy, h), b'', None))
+
+
+def _c20_observe(names, req, resp):
+	"""read-only uses of the request, the response, their header sets, the parsed Range element and the body; nothing here assigns to them"""
+	import copy
+	from httoop.status import Status
+	for n in names or []:
+		obj, _, what = n.partition('.')
+		if obj in ('hdr', 'rhdr'):
+			_obs_headers(req.headers if obj == 'hdr' else resp.headers, what, ['Range'] if obj == 'hdr' else ['ETag', 'Last-Modified', 'Accept-Ranges', 'Content-Type', 'Content-Length', 'Content-Range'])
+		elif obj in ('req', 'resp'):
+			m = req if obj == 'req' else resp
+			if what == 'repr':
+				_try(repr, m), _try(str, m), _try(bytes, m), _try(format, m, ''), _try(hash, m), _try(len, m), _try(bool, m), _try(list, m)
+			elif what == 'copy':
+				_try(copy.copy, m), _try(copy.deepcopy, m)
+			elif what == 'attrs':
+				for a in ('protocol', 'headers', 'body', 'method', 'uri', 'status', 'trailer', 'nosuch', '__class__'):
+					_try(getattr, m, a), _try(hasattr, m, a)
+				_cmp_all(m.protocol, ((1, 1), (1, 0), b'HTTP/1.1', 'HTTP/1.1', m.protocol, 1))
+				_try(lambda: (bytes(m.protocol), str(m.protocol), repr(m.protocol), tuple(m.protocol), m.protocol.major, m.protocol.minor))
+				if obj == 'req':
+					_cmp_all(m.method, ('GET', b'GET', 'get', 'POST', m.method))
+					_try(lambda: (bytes(m.method), str(m.method), m.method.safe, m.method.idempotent, bytes(m.uri), m.uri.path))
+		elif obj == 'status':
+			st = resp.status
+			_cmp_all(st, (200, 206, 416, '200', b'200', '200 OK', st, Status(200), 200.0, None))
+			_try(int, st), _try(str, st), _try(bytes, st), _try(repr, st), _try(hash, st), _try(bool, st), _try(copy.copy, st), _try(lambda: (st.code, st.reason, st.successful, st.client_error))
+		elif obj == 'rng':
+			e = _try(req.headers.element, 'Range')
+			if isinstance(e, str) or e is None:
+				continue
+			if what == 'ser':
+				_try(repr, e), _try(str, e), _try(bytes, e), _try(e.compose), _try(hash, e), _try(len, e), _try(bool, e), _try(list, e), _try(format, e, '')
+			elif what == 'cmp':
+				_cmp_all(e, ('bytes', b'bytes', 'BYTES', 'bits', e, _try(req.headers.element, 'Range'), None))
+			elif what == 'copy':
+				_try(copy.copy, e), _try(copy.deepcopy, e), _try(lambda: sorted([e, e])), _try(lambda: type(e).sorted([e]))
+			elif what == 'attrs':
+				_try(lambda: (e.value, e.params, list(e.ranges), tuple(e.ranges), len(e.ranges), sorted(e.ranges, key=repr), list(e.positions), list(e.positions), e.is_request_header, e.nosuch))
+				_try(lambda: e.stddev([1, 2, 3]))
+		elif obj == 'body':
+			b = resp.body
+			if what == 'len':
+				_try(len, b), _try(bool, b), _try(len, b)
+			elif what == 'ser':
+				_try(bytes, b), _try(str, b), _try(repr, b), _try(bytes, b)
+			elif what == 'iter':
+				_try(list, b), _try(lambda: [x for x in b]), _try(lambda: next(iter(b)))
+			elif what == 'attrs':
+				for a in ('fileable', 'generator', 'encoding', 'mimetype', 'chunked', 'fd', 'data', 'headers', 'trailer', 'content_encoding', 'transfer_encoding', 'nosuch'):
+					_try(getattr, b, a), _try(hasattr, b, a)
+			elif what == 'copy':
+				_try(copy.copy, b)   # (only made, not read: a shallow copy shares the file object by design)
+			elif what == 'cmp':
+				_cmp_all(b, (b'', b'x', 'x', b, None, 0))
+			elif what == 'tell':
+				_try(b.tell), _try(lambda: b.fd.tell()), _try(lambda: b.fd.seekable()), _try(lambda: b.fd.closed)
+		else:
+			raise ValueError(n)
+
+
 def _strengthen(rng, tier):
 	big = tier == 'thorough'
 	out = []
@@ -643,6 +889,7 @@ def gen_cases(rng, tier):
 	cases = _gen_cases_base(rng, tier)
 	# the strengthening cases come last and draw from their own stream, so the older cases of a seed stay exactly what they were
 	cases.extend(_strengthen(_random.Random(rng.getrandbits(64)), tier))
+	cases.extend(_gen_wave4(_random.Random(rng.getrandbits(64)), tier == 'thorough'))   # last, own stream: the older cases of a seed stay what they were
 	return cases
 
 
@@ -825,6 +1072,20 @@ def _observe_px(c):
 					pass
 				if rk == 'pop':
 					req.headers.pop(rn)
+			elif rk in ('del', 'clear', 'pop2', 'delonly'):
+				req.headers[rn] = bytes.fromhex(c['other'])
+				try:
+					req.headers.element(rn)
+				except Exception:
+					pass
+				if rk == 'clear':
+					req.headers.clear()
+				elif rk == 'pop2':
+					req.headers.pop('X-None', None)
+					req.headers.pop(rn.swapcase(), None)
+					req.headers.pop(rn, None)
+				else:
+					del req.headers[rn]
 			if rk == 'append':
 				for part in c['parts']:
 					req.headers.append(rn, bytes.fromhex(part))
@@ -837,6 +1098,10 @@ def _observe_px(c):
 				req.headers.update({rn: v})
 			elif rk == 'setdefault':
 				req.headers.setdefault(rn, v)
+			elif rk == 'setdefault2':   # setdefault on a field that is there must leave it alone
+				req.headers[rn] = v
+				req.headers.setdefault(rn, bytes.fromhex(c['other']))
+				req.headers.setdefault(rn.upper())
 			elif rk == 'hset':
 				req.headers.set({'Host': 'example.org', rn: v})
 			elif rk == 'ctor':
@@ -845,6 +1110,10 @@ def _observe_px(c):
 				req.headers[rn] = v
 		if 'me' in c:
 			req.method = c['me']
+		if c.get('qp') is not None:
+			req.protocol = tuple(c['qp'])
+		if c.get('rp') is not None:
+			resp.protocol = tuple(c['rp'])
 		# 4. the response
 		for name, value in c.get('vk', [['ETag', 'foo']]):
 			resp.headers[name] = value
@@ -873,8 +1142,10 @@ def _observe_px(c):
 			resp.headers['Content-Type'] = c['ct']
 		ct0 = resp.headers.getbytes('Content-Type')
 		before = int(resp.status)
+		_c20_observe(c.get('obs'), req, resp)
 		composed = ComposedResponse(resp, req)
 		composed.prepare()
+		_c20_observe(c.get('obs2'), req, resp)
 		h = resp.headers
 		ct = h.getbytes('Content-Type')
 		bd = None
@@ -885,6 +1156,13 @@ def _observe_px(c):
 			'body': body.hex(), 'bd': bd, 'ar': hx(h.getbytes('Accept-Ranges')), 'ct0': hx(ct0), 'seen': hx(req.headers.getbytes('Range'))}
 		if int(resp.status) == 206:
 			o['ct_text'] = h.get('Content-Type')
+			if c.get('fam'):   # the other members of the parse / compose and encode / decode families on what prepare() produced
+				if o['cr'] is not None:
+					e = h.element('Content-Range')
+					o['cr_elem'] = [list(e.range) if e.range else None, e.length, e.value, hx(bytes(e)), hx(bytes(type(e).parse(bytes.fromhex(o['cr']))))]
+				if bd is not None:
+					dec = Body(mimetype=h.get('Content-Type')).decode(body)
+					o['dec'] = [[hx(p.headers.getbytes('Content-Range')), hx(bytes(p))] for p in dec]
 			# serialise twice, prepare twice (same and new ComposedResponse object): nothing may move
 			o['body2'] = bytes(resp.body).hex()
 			if c.get('rt'):
@@ -1032,7 +1310,7 @@ def oracle(c, o):
 
 def _px_label(c):
 	"""first 60 characters = class of the failing input (the framework reports one violation per distinct prefix)"""
-	how = [c.get('bk', 'bytes')] + ['%s=%s' % (key, c[key] if key not in ('prior', 'other', 'parts', 'vk') else '..') for key in ('opos', 'bpos', 'bread', 'pre_ser', 'pieces', 'prior', 'rk', 'rn', 'vk', 'me', 'st0') if key in c]
+	how = [c.get('bk', 'bytes')] + ['%s=%s' % (key, c[key] if key not in ('prior', 'other', 'parts', 'vk') else '..') for key in ('opos', 'bpos', 'bread', 'pre_ser', 'pieces', 'prior', 'rk', 'rn', 'vk', 'me', 'st0', 'rp', 'qp') if key in c] + (['observed'] if c.get('obs') or c.get('obs2') else [])
 	if c.get('ct') is None or any(ord(ch) > 127 for ch in c['ct']):
 		how.append('ct=%r' % (c.get('ct'),))
 	return ('px[' + ' '.join(how))[:34] + '] '
@@ -1074,6 +1352,15 @@ def _oracle_px(c, o):
 			return 'the serialised 206 is not status line + header + the prepared body with its Content-Length: %r' % (wire[:300],)
 		if o.get('rt') != [[206, o['cr'], o['cl'], body]]:
 			return 'the serialised 206 read back by a client is %r' % ([(r[0], r[1] and bytes.fromhex(r[1]), r[2] and bytes.fromhex(r[2]), len(r[3]) // 2) for r in o.get('rt') or []],)
+	if o.get('cr_elem') is not None:
+		m = re.fullmatch(rb'bytes ([0-9]+)-([0-9]+)/([0-9]+)', bytes.fromhex(o['cr']))
+		if not m or o['cr_elem'] != [[int(m.group(1)), int(m.group(2))], int(m.group(3)), 'bytes', o['cr'], o['cr']]:
+			return 'the Content-Range %r of the 206 parsed by ContentRange.parse and composed again gives %r' % (bytes.fromhex(o['cr']), o['cr_elem'])
+	if o.get('dec') is not None:
+		d, specs = bytes.fromhex(c['d']), _closed_specs(bytes.fromhex(c['v']))
+		want = [[(b'bytes %d-%d/%d' % (f, l, len(d))).hex(), d[f:l + 1].hex()] for f, l in sorted(set(specs or []))]
+		if o['dec'] != want:
+			return 'the multipart/byteranges body decoded by the codec gives the parts %r, expected %r' % (o['dec'], want)
 	if c['ct'] is not None and o['bd'] is None and o.get('ct_text') is not None and o['ct_text'] != c['ct'] and o['ct_text'].strip() != c['ct'].strip():
 		return 'single range: the Content-Type of the representation came back as %r, given %r' % (o['ct_text'], c['ct'])
 	return None
@@ -1112,6 +1399,11 @@ def _oracle_prepared(c, o):
 		if m and int(m.group(1)) < int(m.group(2)) and (st != o['before'] or body != d or o['cr'] is not None):
 			return 'foreign-unit-not-ignored: a Range field whose range unit is not bytes changed the response: %r (status %d, Content-Range %r, %d body octets)' % (v, st, o['cr'] and bytes.fromhex(o['cr']), len(body))
 		return None
+	# RFC 7233 2.1: a byte-range-spec whose last position is smaller than its first is invalid, and so is the set that contains it (RFC 2616 14.35.1:
+	# the recipient of a set with an invalid spec MUST ignore the field) - whatever the other members are
+	rev = [(int(m.group(1)), int(m.group(2))) for m in (CLOSED.fullmatch(x) for x in rest.split(b',')) if m and int(m.group(2)) < int(m.group(1))]
+	if rev and st == 206:
+		return 'invalid-206 (a byte-range-spec with last < first: %d-%d): syntactically invalid Range %r answered with 206 (Content-Range %r, %d body octets)' % (rev[0][0], rev[0][1], v, o['cr'] and bytes.fromhex(o['cr']), len(body))
 	if not ok_pre and st != 206:
 		return None  # (a 206 must carry the right octets even where the statement does not demand one)
 	if c.get('noexp') and st != 206:
